@@ -11,10 +11,7 @@ import (
 	"gonum.org/v1/gonum/internal/verif/vlib"
 )
 
-const (
-	padElems = 4  // elements before and after the slice that must stay unchanged
-	maxElems = 96 // largest operand of the declared bounds (band, ld = 13, 5 rows: 63)
-)
+const padElems = 4 // elements before and after the slice that must stay unchanged
 
 // I is the pseudo-precision of []int operands (LAPACK pivot and index arrays).
 const I Prec = 4
@@ -33,8 +30,6 @@ type region struct {
 	snap  []byte
 	off   int // element offset of the slice
 }
-
-func newHeapRegion(p Prec) *region { return newHeapRegionN(p, maxElems) }
 
 // newHeapRegionN returns a region with room for a slice of n elements.
 func newHeapRegionN(p Prec, n int) *region {
